@@ -1,4 +1,5 @@
 import ScriggoV.Lemmas.ShowLift
+import ScriggoV.Lemmas.ShowNode
 /-! C09 — a show accepted by the type checker never fails at run time for its static type.
 
 `staticOK c t`: `checkShow` (with `checkShowJS/JSON`) accepts a show of an expression of type `t`
@@ -107,6 +108,98 @@ theorem nil_iface_never_fails (c : Ctx) (hc : c.valid = true) (i : TInfo) :
     staticOK c (.ifaceNil i) = true → dynOK c (.ifaceNil i) = true :=
   show_accepted_never_fails c hc (.ifaceNil i) rfl rfl
 
+
+/-! ### the whole show node: every operand of every shown expression
+
+`{{ x default y }}` has two operands, `{% show a, b %}` two expressions; the emitted code shows the
+first operand that is there (`x` when declared). The Show case of `checkNodes` is regenerated as
+statements (`Gen/ShowOperands.lean`); the fact below is re-decided on every check. -/
+
+/-- **extracted fact.** In the regenerated Show case the test of `checkShow`'s error stands inside
+the loop over the operand pair: an operand that is fine leaves the state as it was, one that is
+not ends the check with its own verdict, and nothing around the loops interferes (`loopOK`). -/
+theorem show_loop_returns_on_first_failure : loopOK ShowOperands.showLoop = true := by decide
+
+/-- the checker's verdict on a node is that of the first operand, over all expressions and all
+members of their pairs, that is not fine -/
+theorem show_node_verdict (c : Ctx) (exprs : List (List Operand)) :
+    checkShowNode c exprs = specShow (exprs.map (·.map (Operand.classify c))) :=
+  runShow_eq_spec _ show_loop_returns_on_first_failure _
+
+/-- an operand the checker lets through: none there, or of a type `checkShow` accepts -/
+def Operand.showable (c : Ctx) : Operand → Bool
+  | .absent => true
+  | .untypedNil => false
+  | .typed t => staticOK c t
+
+theorem classify_fine (c : Ctx) (o : Operand) :
+    (o.classify c = .absent ∨ o.classify c = .typed .ok) ↔ o.showable c = true := by
+  cases o with
+  | absent => simp [Operand.classify, Operand.showable]
+  | untypedNil => simp [Operand.classify, Operand.showable]
+  | typed t => simp [Operand.classify, Operand.showable, staticOK]
+
+/-- **a show is accepted iff ALL operands are showable in the context** — not the last one, not
+the evaluated one: every member of every pair. -/
+theorem show_accepts_iff_all_operands (c : Ctx) (exprs : List (List Operand)) :
+    checkShowNode c exprs = .accepted ↔ ∀ ops ∈ exprs, ∀ o ∈ ops, o.showable c = true := by
+  rw [show_node_verdict, specShow, firstFailure_accepted_iff]
+  constructor
+  · intro h ops hops o ho
+    exact (classify_fine c o).1 (h _ (List.mem_flatten.2 ⟨ops.map (Operand.classify c),
+      List.mem_map.2 ⟨ops, hops, rfl⟩, List.mem_map.2 ⟨o, ho, rfl⟩⟩))
+  · intro h o ho
+    obtain ⟨l, hl, hol⟩ := List.mem_flatten.1 ho
+    obtain ⟨ops, hops, rfl⟩ := List.mem_map.1 hl
+    obtain ⟨o', ho', rfl⟩ := List.mem_map.1 hol
+    exact (classify_fine c o').2 (h ops hops o' ho')
+
+theorem evaluated_mem : ∀ (ops : List Operand) (t : TDesc), evaluated ops = some t → Operand.typed t ∈ ops
+  | [], _, h => by simp [evaluated] at h
+  | .typed t' :: _, t, h => by simp [evaluated] at h; simp [h]
+  | .untypedNil :: _, _, h => by simp [evaluated] at h
+  | .absent :: rest, t, h => by
+    simp only [evaluated] at h
+    exact List.mem_cons_of_mem _ (evaluated_mem rest t h)
+
+/-- **C09 for a whole node.** If the checker accepts the node, then whichever operand of
+whichever expression is evaluated at run time (any typed one — in particular the first that is
+there, which is the one the emitted code shows) is shown without a failure for its type. -/
+theorem show_node_accepted_never_fails (c : Ctx) (hc : c.valid = true) (exprs : List (List Operand))
+    (h : checkShowNode c exprs = .accepted) :
+    ∀ ops ∈ exprs, ∀ t, Operand.typed t ∈ ops → t.wf = true → dynAcceptedTop c t = true → dynOK c t = true := by
+  intro ops hops t ht hw ha
+  have := (show_accepts_iff_all_operands c exprs).1 h ops hops _ ht
+  exact show_accepted_never_fails c hc t hw ha this
+
+theorem show_node_evaluated_never_fails (c : Ctx) (hc : c.valid = true) (exprs : List (List Operand))
+    (h : checkShowNode c exprs = .accepted) :
+    ∀ ops ∈ exprs, ∀ t, evaluated ops = some t → t.wf = true → dynAcceptedTop c t = true → dynOK c t = true :=
+  fun ops hops t ht => show_node_accepted_never_fails c hc exprs h ops hops t (evaluated_mem ops t ht)
+
+/-- the variant in which the error test stands behind the loop over the pair ("last operand only"):
+the same statement about it -/
+def LastOperandOnlySuffices : Prop :=
+  ∀ (c : Ctx), c.valid = true → ∀ exprs : List (List Operand),
+    runShow lastOperandOnlyLoop (exprs.map (·.map (Operand.classify c))) = .accepted →
+    ∀ ops ∈ exprs, ∀ t, evaluated ops = some t → t.wf = true → dynAcceptedTop c t = true → dynOK c t = true
+
+def tChan : TInfo := ⟨.chan, .none, fun _ => false⟩
+def tIntInfo : TInfo := ⟨.int, .none, fun _ => false⟩
+/-- `{{ ch default 0 }}` in HTML with `ch` a declared `chan int` -/
+def exDefaultChan : List (List Operand) := [[.typed (.basic tChan), .typed (.basic tIntInfo)]]
+
+/-- … is false: `{{ ch default 0 }}` would be accepted and the channel shown. -/
+theorem last_operand_only_refuted : ¬ LastOperandOnlySuffices := by
+  intro h
+  have := h ⟨.html, false⟩ (by decide) exDefaultChan (by decide) _ (List.mem_singleton.2 rfl)
+    (.basic tChan) rfl (by decide) (by decide)
+  revert this
+  decide
+
+/-- and `loopOK` tells the two shapes apart -/
+theorem last_operand_only_not_loopOK : loopOK lastOperandOnlyLoop = false := by decide
+
 /-! ### non-vacuity: concrete accepted descriptors -/
 
 def tInt : TInfo := ⟨.int, .none, fun _ => false⟩
@@ -130,5 +223,11 @@ example : staticOK ⟨.json, false⟩ (.ifaceVal tAny exComposite) = true ∧
 example : staticOK ⟨.html, false⟩ exComposite = false ∧ dynOK ⟨.html, false⟩ exComposite = false := by decide
 example : ∃ v : IfaceValue, dynFails ⟨.js, false⟩ v :=
   ⟨⟨tAny, .map tMap (.basic tStruct) (.basic tInt)⟩, by unfold dynFails; decide⟩
+
+/-- the node theorems are not vacuous: a node with a default expression and two expressions is
+accepted, one with an unshowable declared left operand is rejected although its right one is fine -/
+example : checkShowNode ⟨.html, false⟩ [[.typed (.basic tUintptr), .typed (.basic tInt)], [.absent, .typed (.basic tInt)]] = .accepted := by decide
+example : checkShowNode ⟨.html, false⟩ exDefaultChan = .cannotShow := by decide
+example : checkShowNode ⟨.html, false⟩ [[.absent, .typed (.basic tInt)], [.typed (.basic tInt), .untypedNil]] = .untypedNil := by decide
 
 end ScriggoV.Show
